@@ -345,9 +345,8 @@ class TransportRefsContainer(RefsContainer):
                 return header + f.read(40 - len(SYMREF))
 
     def _remove_packed_ref(self, name):
-        if self._packed_refs is None:
-            return
-        # reread cached refs from disk, while holding the lock
+        # reread cached refs from disk, while holding the lock (also when
+        # they were never read: the ref may exist only in packed-refs)
 
         self._packed_refs = None
         self.get_packed_refs()
